@@ -219,7 +219,8 @@ def _decode_apm(img, hy, mac_header):
         if cnt != total:
             hy._p('apm:count', 'entry %d says %d map entries, entry 1 says %d' % (i, cnt, total))
         if count == 0 or (start + count) * bs > n:
-            hy._p('apm:range', 'entry %d (%s/%s): start %d count %d in %d-byte blocks, image has %d'
+            # 'apm:range' names the one mechanism "entries left at start 0 / count 0"
+            hy._p('apm:range' if (start == 0 and count == 0) else 'apm:range:wrong', 'entry %d (%s/%s): start %d count %d in %d-byte blocks, image has %d'
                   % (i, ent['name'], ent['type'], start, count, bs, n // bs))
     nxt = (total + 1) * bs
     if bytes(img[nxt:nxt + 4]) == b'PM\x00\x00':
